@@ -139,20 +139,503 @@ Qed.
 Lemma Good_trans x1 e1 x2 e2 x3 : Good x1 e1 x2 -> Good x2 e2 x3 -> Good x1 (e1 ++ e2) x3.
 Proof.
   intros G1 G2. constructor.
-  - apply G2.
+  - apply (g_wf _ _ _ G2).
   - pose proof (g_n _ _ _ G1). pose proof (g_n _ _ _ G2). lia.
   - rewrite rets_app. apply Forall_app. pose proof (g_n _ _ _ G1). pose proof (g_n _ _ _ G2). split.
     + eapply Forall_impl; [|apply (g_fresh _ _ _ G1)]. cbn. intros; lia.
     + eapply Forall_impl; [|apply (g_fresh _ _ _ G2)]. cbn. intros; lia.
-  - rewrite rets_app. apply NoDup_app_aux; [apply G1|apply G2|].
+  - rewrite rets_app. apply NoDup_app_aux; [apply (g_nodup _ _ _ G1)|apply (g_nodup _ _ _ G2)|].
     intros r H1 H2. pose proof (g_fresh _ _ _ G1) as F1. pose proof (g_fresh _ _ _ G2) as F2.
     rewrite Forall_forall in F1, F2. specialize (F1 _ H1). specialize (F2 _ H2). cbn in *. lia.
   - intros r. rewrite cbs_app, losts_app, subs_app, !cnt_app.
     pose proof (g_cnt _ _ _ G1 r). pose proof (g_cnt _ _ _ G2 r). lia.
-  - rewrite (g_tcp _ _ _ G2). apply G1.
-  - intros H. apply G2, G1, H.
-  - intros H. apply G2, G1, H.
+  - rewrite (g_tcp _ _ _ G2). apply (g_tcp _ _ _ G1).
+  - intros H. apply (g_closing _ _ _ G2), (g_closing _ _ _ G1), H.
+  - intros H. apply (g_closed _ _ _ G2), (g_closed _ _ _ G1), H.
   - intros H. rewrite losts_app, (g_lost _ _ _ G1 H), (g_lost _ _ _ G2); [reflexivity|].
     rewrite (g_tcp _ _ _ G1). exact H.
-  - apply Forall_app. split; [apply G1|apply G2].
+  - apply Forall_app. split; [apply (g_st _ _ _ G1)|apply (g_st _ _ _ G2)].
+Qed.
+
+(* ---- primitive steps ---- *)
+Lemma Good_ret_fail x x' c :
+  wf x -> c <> 0 -> nreq x' = S (nreq x) -> c_req (cs x') = c_req (cs x) ->
+  c_tcp (cs x') = c_tcp (cs x) -> c_closing (cs x') = c_closing (cs x) ->
+  c_closed (cs x') = c_closed (cs x) -> Good x [CRet (nreq x) c] x'.
+Proof.
+  intros (W1 & W2) Hc N R T C1 C2. constructor.
+  - split.
+    + intros r Hr. rewrite R in Hr. specialize (W1 _ Hr). lia.
+    + rewrite C2, R, C1. exact W2.
+  - lia.
+  - cbn. repeat constructor; lia.
+  - cbn. repeat constructor. intros [].
+  - intros r. unfold pend. rewrite R. cbn. destruct (Z.eqb_spec c 0); [contradiction|]. reflexivity.
+  - exact T.
+  - rewrite C1; auto.
+  - rewrite C2; auto.
+  - reflexivity.
+  - repeat constructor.
+Qed.
+
+Definition lost_of (s : cstream) : list cev := match c_req s with Some r0 => [CLost r0] | None => [] end.
+
+Lemma Good_ret_ok x x' :
+  wf x -> nreq x' = S (nreq x) -> c_req (cs x') = Some (nreq x) ->
+  (c_tcp (cs x) = true -> c_req (cs x) = None) ->
+  c_tcp (cs x') = c_tcp (cs x) -> c_closing (cs x') = c_closing (cs x) ->
+  c_closed (cs x') = false -> c_closed (cs x) = false ->
+  Good x (lost_of (cs x) ++ [CRet (nreq x) 0]) x'.
+Proof.
+  intros (W1 & W2) N R Ht T C1 C2 C3. constructor.
+  - split.
+    + intros r Hr. rewrite R in Hr. inversion Hr; subst. lia.
+    + rewrite C2. discriminate.
+  - lia.
+  - unfold lost_of. destruct (c_req (cs x)); cbn; repeat constructor; lia.
+  - unfold lost_of. destruct (c_req (cs x)); cbn; repeat constructor; intros [].
+  - intros r. unfold pend, lost_of. rewrite R.
+    destruct (c_req (cs x)) as [r0|]; cbn;
+      repeat match goal with |- context [Nat.eq_dec ?a ?b] => destruct (Nat.eq_dec a b) end;
+      repeat match goal with |- context [Nat.eqb ?a ?b] => destruct (Nat.eqb_spec a b) end;
+      try reflexivity; try lia; congruence.
+  - exact T.
+  - rewrite C1; auto.
+  - rewrite C3; discriminate.
+  - intros H. unfold lost_of. rewrite (Ht H). reflexivity.
+  - unfold lost_of. destruct (c_req (cs x)); repeat constructor.
+Qed.
+
+Lemma Good_cb x x' r st src :
+  wf x -> c_req (cs x) = Some r -> c_req (cs x') = None -> nreq x' = nreq x ->
+  c_tcp (cs x') = c_tcp (cs x) ->
+  (c_closing (cs x) = true -> c_closing (cs x') = true) ->
+  (c_closed (cs x) = true -> c_closed (cs x') = true) ->
+  (c_closed (cs x') = true -> c_closing (cs x') = true) ->
+  status_ok (CCb r st src) -> Good x [CCb r st src] x'.
+Proof.
+  intros (W1 & W2) R R' N T C1 C2 C3 S. constructor; auto.
+  - split; [intros r0 Hr; rewrite R' in Hr; discriminate|]. intros H. split; [exact R'|apply C3, H].
+  - lia.
+  - cbn. constructor.
+  - cbn. constructor.
+  - intros r0. unfold pend. rewrite R, R'. cbn.
+    destruct (Nat.eq_dec r r0), (Nat.eqb_spec r r0); try reflexivity; contradiction.
+Qed.
+
+Lemma wf_not_closed x : wf x -> c_closing (cs x) = false -> c_closed (cs x) = false.
+Proof.
+  intros (_ & W2) H. destruct (c_closed (cs x)); [|reflexivity].
+  destruct (W2 eq_refl) as (_ & C). congruence.
+Qed.
+
+(* ---- the API calls ---- *)
+Lemma tcp_connect_good x x' e :
+  wf x -> c_closing (cs x) = false -> c_tcp (cs x) = true ->
+  tcp_connect x = (x', e) -> Good x e x'.
+Proof.
+  intros W Hc Ht H. pose proof (wf_not_closed x W Hc) as Hd.
+  unfold tcp_connect in H. destruct (c_req (cs x)) as [r0|] eqn:R.
+  { inversion H; subst. apply Good_ret_fail; cbn; auto. unfold UV_EALREADY; lia. }
+  assert (Out : forall tcp fd dl fed cl cd o, tcp = c_tcp (cs x) -> cl = c_closing (cs x) ->
+            cd = c_closed (cs x) ->
+            Good x [CRet (nreq x) 0]
+              (mkCs (mkC tcp fd (Some (nreq x)) dl true fed cl cd) o (S (nreq x)) (ccbn x))).
+  { intros tcp fd dl fed cl cd o T1 T2 T3.
+    pose proof (Good_ret_ok x (mkCs (mkC tcp fd (Some (nreq x)) dl true fed cl cd)
+                    o (S (nreq x)) (ccbn x)) W) as G.
+    unfold lost_of in G. rewrite R in G. cbn [app] in G.
+    apply G; cbn; auto; congruence. }
+  destruct (c_delayed (cs x) =? 0); cbn [negb] in H.
+  2: { inversion H; subst. apply Out; reflexivity. }
+  destruct (if c_fd (cs x) then (0, o_sock (co x)) else next_z (o_sock (co x))) as [serr so'].
+  destruct (Z.eqb_spec serr 0) as [Es|Es]; cbn [negb] in H.
+  2: { inversion H; subst. apply Good_ret_fail; cbn; auto. }
+  destruct (connect_loop (o_conn (co x))) as [a cn'].
+  destruct ((a =? 0) || (a =? UV_EINPROGRESS)) eqn:Ea.
+  { inversion H; subst. apply Out; reflexivity. }
+  destruct (Z.eqb_spec a UV_ECONNREFUSED).
+  { inversion H; subst. apply Out; reflexivity. }
+  inversion H; subst. apply Good_ret_fail; cbn; auto.
+  apply orb_false_elim in Ea. destruct Ea as (Ea & _). destruct (Z.eqb_spec a 0); [discriminate|assumption].
+Qed.
+
+Lemma bind_busy_good x x' e : wf x -> bind_busy x = (x', e) -> Good x e x'.
+Proof.
+  intros W H. unfold bind_busy in H.
+  destruct (if c_fd (cs x) then (0, o_sock (co x)) else next_z (o_sock (co x))) as [serr so'].
+  destruct (negb (serr =? 0)); inversion H; subst; apply Good_same; cbn; auto; exact W.
+Qed.
+
+Lemma pipe_body_spec x flags n z x' e res :
+  pipe_connect2_body x flags n z = (x', e, res) ->
+  nreq x' = nreq x /\ ccbn x' = ccbn x /\ c_tcp (cs x') = c_tcp (cs x) /\
+  c_closing (cs x') = c_closing (cs x) /\ c_closed (cs x') = c_closed (cs x) /\
+  match res with
+  | Some err => x' = x /\ e = [] /\ err <> 0
+  | None => c_req (cs x') = Some (nreq x) /\ e = lost_of (cs x)
+  end.
+Proof.
+  intros H. unfold pipe_connect2_body in H.
+  assert (Inv : (x, @nil cev, Some UV_EINVAL_) = (x', e, res) ->
+     nreq x' = nreq x /\ ccbn x' = ccbn x /\ c_tcp (cs x') = c_tcp (cs x) /\
+     c_closing (cs x') = c_closing (cs x) /\ c_closed (cs x') = c_closed (cs x) /\
+     match res with Some err => x' = x /\ e = [] /\ err <> 0
+                  | None => c_req (cs x') = Some (nreq x) /\ e = lost_of (cs x) end).
+  { intros H'. inversion H'; subst. repeat split; auto. unfold UV_EINVAL_; lia. }
+  destruct (negb (Z.land flags (Z.lnot 1) =? 0)); [apply (Inv H)|].
+  destruct (Nat.eqb n 0); [apply (Inv H)|].
+  destruct z; [apply (Inv H)|].
+  destruct (negb (Z.land flags 1 =? 0) && Nat.ltb 108 n); [apply (Inv H)|].
+  destruct (if negb (c_fd (cs x)) then next_z (o_sock (co x)) else (0, o_sock (co x))) as [serr so'].
+  unfold pipe_out in H.
+  destruct (serr <? 0).
+  { inversion H; subst. cbn. repeat split; reflexivity. }
+  destruct (connect_loop (o_conn (co x))) as [a cn'].
+  destruct ((a =? 0) || (a =? UV_EINPROGRESS)); inversion H; subst; cbn; repeat split; reflexivity.
+Qed.
+
+Lemma pipe_connect2_good x flags n z x' e :
+  wf x -> c_closing (cs x) = false -> c_tcp (cs x) = false ->
+  pipe_connect2 x flags n z = (x', e) -> Good x e x'.
+Proof.
+  intros W Hc Ht H. pose proof (wf_not_closed x W Hc) as Hd. unfold pipe_connect2 in H.
+  destruct (pipe_connect2_body x flags n z) as [[x1 e1] res] eqn:B.
+  destruct (pipe_body_spec _ _ _ _ _ _ _ B) as (N & _ & T & C1 & C2 & R).
+  destruct res as [err|].
+  - destruct R as (-> & -> & Herr). inversion H; subst. cbn [app].
+    apply Good_ret_fail; cbn; auto.
+  - destruct R as (R & ->). inversion H; subst.
+    apply Good_ret_ok; cbn; auto; try congruence.
+Qed.
+
+Lemma pipe_connect_good x n x' e :
+  wf x -> c_closing (cs x) = false -> c_tcp (cs x) = false ->
+  pipe_connect x n = (x', e) -> Good x e x'.
+Proof.
+  intros W Hc Ht H. pose proof (wf_not_closed x W Hc) as Hd. unfold pipe_connect in H.
+  destruct (pipe_connect2_body x 0 n false) as [[x1 e1] res] eqn:B.
+  destruct (pipe_body_spec _ _ _ _ _ _ _ B) as (N & _ & T & C1 & C2 & R).
+  destruct res as [err|].
+  - destruct R as (-> & -> & Herr). unfold pipe_out in H. inversion H; subst. cbn [app].
+    change (match c_req (cs x) with Some r0 => [CLost r0] | None => [] end) with (lost_of (cs x)).
+    apply Good_ret_ok; cbn; auto; congruence.
+  - destruct R as (R & ->). inversion H; subst.
+    apply Good_ret_ok; cbn; auto; try congruence.
+Qed.
+
+Lemma cclose_good x x' e : wf x -> cclose x = (x', e) -> Good x e x'.
+Proof.
+  intros W H. unfold cclose in H. destruct (c_closing (cs x)) eqn:C; inversion H; subst.
+  - apply Good_refl, W.
+  - apply Good_same; cbn; auto. destruct W as (W1 & W2). split; cbn; [exact W1|].
+    intros Hd. destruct (W2 Hd) as (R & _). split; [exact R|reflexivity].
+Qed.
+
+Lemma cexec_simple_good x o x' e : wf x -> cexec_simple x o = (x', e) -> Good x e x'.
+Proof.
+  intros W H. unfold cexec_simple in H.
+  destruct o; try (eapply cclose_good; eassumption);
+    try (inversion H; subst; apply Good_refl, W);
+    (destruct (c_closing (cs x)) eqn:C; [inversion H; subst; apply Good_refl, W|]);
+    (destruct (c_tcp (cs x)) eqn:T; try (inversion H; subst; apply Good_refl, W)).
+  - eapply tcp_connect_good; eauto.
+  - eapply bind_busy_good; eauto.
+  - eapply pipe_connect_good; eauto.
+  - eapply pipe_connect2_good; eauto.
+Qed.
+
+Lemma cexec_cb_good os : forall x x' e, wf x -> cexec_cb x os = (x', e) -> Good x e x'.
+Proof.
+  induction os as [|o r IH]; intros x x' e W H; cbn [cexec_cb] in H.
+  - inversion H; subst. apply Good_refl, W.
+  - destruct (cexec_simple x o) as [x1 e1] eqn:E1. destruct (cexec_cb x1 r) as [x2 e2] eqn:E2.
+    inversion H; subst. pose proof (cexec_simple_good _ _ _ _ W E1) as G1.
+    eapply Good_trans; [exact G1|]. apply IH; [apply (g_wf _ _ _ G1)|exact E2].
+Qed.
+
+Lemma run_cb_good x beh x' e : wf x -> run_cb x beh = (x', e) -> Good x e x'.
+Proof.
+  intros W H. unfold run_cb in H.
+  assert (W' : wf (mkCs (cs x) (co x) (nreq x) (S (ccbn x)))) by exact W.
+  pose proof (cexec_cb_good _ _ _ _ W' H) as G.
+  replace e with ([] ++ e) by reflexivity. eapply Good_trans; [|exact G].
+  apply Good_same; cbn; auto.
+Qed.
+
+Lemma stream_connect_good x beh x' e : wf x -> stream_connect x beh = (x', e) -> Good x e x'.
+Proof.
+  intros W H. unfold stream_connect in H. destruct (c_req (cs x)) as [r|] eqn:R.
+  2: { inversion H; subst. apply Good_refl, W. }
+  assert (Step : forall (error : Z) (src : csrc) (s1 : cstream) (o' : corc),
+     c_tcp s1 = c_tcp (cs x) -> c_req s1 = c_req (cs x) -> c_closing s1 = c_closing (cs x) ->
+     c_closed s1 = c_closed (cs x) -> status_ok (CCb r error src) ->
+     (if error =? UV_EINPROGRESS then (mkCs s1 o' (nreq x) (ccbn x), [])
+      else let s2 := mkC (c_tcp s1) (c_fd s1) None (c_delayed s1) false (c_fed s1) (c_closing s1) (c_closed s1) in
+           let (x'0, e0) := run_cb (mkCs s2 o' (nreq x) (ccbn x)) beh in (x'0, CCb r error src :: e0)) = (x', e) ->
+     Good x e x').
+  { intros error src s1 o' T1 T2 T3 T4 St H'.
+    destruct (error =? UV_EINPROGRESS).
+    - inversion H'; subst. apply Good_same; cbn; auto. destruct W as (W1 & W2).
+      split; cbn; [rewrite T2; exact W1|rewrite T4, T2, T3; exact W2].
+      all: congruence.
+    - cbv zeta in H'.
+      destruct (run_cb (mkCs (mkC (c_tcp s1) (c_fd s1) None (c_delayed s1) false (c_fed s1)
+                                  (c_closing s1) (c_closed s1)) o' (nreq x) (ccbn x)) beh) as [x2 e2] eqn:Er.
+      inversion H'; subst. change (CCb r error src :: e2) with ([CCb r error src] ++ e2).
+      assert (G1 : Good x [CCb r error src]
+                 (mkCs (mkC (c_tcp s1) (c_fd s1) None (c_delayed s1) false (c_fed s1)
+                            (c_closing s1) (c_closed s1)) o' (nreq x) (ccbn x))).
+      { apply Good_cb; cbn; auto; try congruence.
+        destruct W as (_ & W2). rewrite T4, T3. intros Hd. apply (W2 Hd). }
+      eapply Good_trans; [exact G1|]. eapply run_cb_good; [apply (g_wf _ _ _ G1)|exact Er]. }
+  destruct (Z.eqb_spec (c_delayed (cs x)) 0) as [Ed|Ed]; cbn [negb] in H.
+  - destruct (next_z (o_so (co x))) as [er so'] eqn:En. eapply Step; [..|exact H]; auto. exact I.
+  - eapply Step; [..|exact H]; cbn; auto.
+Qed.
+
+Lemma stream_io_good x beh x' e : wf x -> stream_io x beh = (x', e) -> Good x e x'.
+Proof.
+  intros W H. unfold stream_io in H. destruct (c_req (cs x)) eqn:R.
+  - eapply stream_connect_good; eauto.
+  - inversion H; subst. apply Good_same; cbn; auto.
+    destruct W as (W1 & W2). split; cbn; [discriminate|]. rewrite R in W2. exact W2.
+Qed.
+
+Lemma unfeed_good x : wf x -> Good x [] (unfeed x).
+Proof. intros W. apply Good_same; cbn; auto. Qed.
+
+Lemma run_pending_good x beh x' e : wf x -> run_pending x beh = (x', e) -> Good x e x'.
+Proof.
+  intros W H. unfold run_pending in H. destruct (c_fed (cs x)).
+  - replace e with ([] ++ e) by reflexivity. eapply Good_trans; [apply unfeed_good, W|].
+    eapply stream_io_good; [exact W|exact H].
+  - inversion H; subst. apply Good_refl, W.
+Qed.
+
+Lemma drain_good beh n : forall x x' e, wf x -> drain n x beh = (x', e) -> Good x e x'.
+Proof.
+  induction n as [|n IH]; intros x x' e W H; cbn [drain] in H.
+  - inversion H; subst. apply Good_refl, W.
+  - destruct (c_fed (cs x)); [|inversion H; subst; apply Good_refl, W].
+    destruct (stream_io (unfeed x) beh) as [x1 e1] eqn:E1.
+    destruct (drain n x1 beh) as [x2 e2] eqn:E2. inversion H; subst.
+    pose proof (stream_io_good _ _ _ _ (W : wf (unfeed x)) E1) as G1.
+    replace (e1 ++ e2) with ([] ++ e1 ++ e2) by reflexivity.
+    eapply Good_trans; [apply unfeed_good, W|]. eapply Good_trans; [exact G1|].
+    apply IH; [apply (g_wf _ _ _ G1)|exact E2].
+Qed.
+
+Lemma Good_closed_event x : wf x -> Good x [CClosed] x.
+Proof.
+  intros W. constructor; auto; try (cbn; constructor); try lia; try constructor.
+Qed.
+
+Lemma destroy_good x beh x' e : wf x -> destroy x beh = (x', e) -> Good x e x'.
+Proof.
+  intros W H. unfold destroy in H. destruct (c_req (cs x)) as [r|] eqn:R.
+  - match type of H with (let (_, _) := run_cb ?y beh in _) = _ => destruct (run_cb y beh) as [x2 e2] eqn:Er end.
+    inversion H; subst. change (CCb r UV_ECANCELED SrcCancel :: e2 ++ [CClosed])
+      with ([CCb r UV_ECANCELED SrcCancel] ++ e2 ++ [CClosed]).
+    match type of Er with run_cb ?y beh = _ =>
+      assert (G1 : Good x [CCb r UV_ECANCELED SrcCancel] y) by (apply Good_cb; cbn; auto) end.
+    eapply Good_trans; [exact G1|].
+    pose proof (run_cb_good _ _ _ _ (g_wf _ _ _ G1) Er) as G2.
+    eapply Good_trans; [exact G2|]. apply Good_closed_event, (g_wf _ _ _ G2).
+  - inversion H; subst. replace [CClosed] with ([] ++ [CClosed]) by reflexivity.
+    assert (G1 : Good x [] (upd_s x (mkC (c_tcp (cs x)) (c_fd (cs x)) None (c_delayed (cs x)) (c_pollout (cs x))
+                                        (c_fed (cs x)) true true))).
+    { apply Good_same; cbn; auto. split; cbn; [discriminate|auto]. }
+    eapply Good_trans; [exact G1|]. apply Good_closed_event, (g_wf _ _ _ G1).
+Qed.
+
+Lemma run_iter_good x beh x' e : wf x -> run_iter x beh = (x', e) -> Good x e x'.
+Proof.
+  intros W H. unfold run_iter in H.
+  destruct (next_b (o_ready (co x))) as [rdy rd'].
+  match type of H with (let (_, _) := run_pending ?y beh in _) = _ =>
+    assert (G0 : Good x [] y) by (apply Good_same; cbn; auto);
+    destruct (run_pending y beh) as [x1 e1] eqn:E1 end.
+  pose proof (run_pending_good _ _ _ _ (g_wf _ _ _ G0) E1) as G1.
+  match type of H with (let (_, _) := ?t in _) = _ => destruct t as [x2 e2] eqn:E2 end.
+  assert (G2 : Good x1 e2 x2).
+  { destruct (c_pollout (cs x1) && rdy && negb (c_closing (cs x1))).
+    - eapply stream_io_good; [apply (g_wf _ _ _ G1)|exact E2].
+    - inversion E2; subst. apply Good_refl, (g_wf _ _ _ G1). }
+  destruct (drain 8 x2 beh) as [x3 e3] eqn:E3.
+  pose proof (drain_good _ _ _ _ _ (g_wf _ _ _ G2) E3) as G3.
+  match type of H with (let (_, _) := ?t in _) = _ => destruct t as [x4 e4] eqn:E4 end.
+  assert (G4 : Good x3 e4 x4).
+  { destruct (c_closing (cs x3) && negb (c_closed (cs x3))).
+    - eapply destroy_good; [apply (g_wf _ _ _ G3)|exact E4].
+    - inversion E4; subst. apply Good_refl, (g_wf _ _ _ G3). }
+  inversion H; subst. replace (e1 ++ e2 ++ e3 ++ e4) with ([] ++ e1 ++ e2 ++ e3 ++ e4) by reflexivity.
+  eapply Good_trans; [exact G0|]. eapply Good_trans; [exact G1|].
+  eapply Good_trans; [exact G2|]. eapply Good_trans; [exact G3|exact G4].
+Qed.
+
+Lemma cstep_good x o beh x' e : wf x -> cstep x o beh = (x', e) -> Good x e x'.
+Proof.
+  intros W H. destruct o; cbn [cstep] in H; try (eapply cexec_simple_good; eassumption).
+  eapply run_iter_good; eassumption.
+Qed.
+
+Lemma crun_good beh os : forall x x' e, wf x -> crun x os beh = (x', e) -> Good x e x'.
+Proof.
+  induction os as [|o r IH]; intros x x' e W H; cbn [crun] in H.
+  - inversion H; subst. apply Good_refl, W.
+  - destruct (cstep x o beh) as [x1 e1] eqn:E1. destruct (crun x1 r beh) as [x2 e2] eqn:E2.
+    inversion H; subst. pose proof (cstep_good _ _ _ _ _ W E1) as G1.
+    eapply Good_trans; [exact G1|]. apply IH; [apply (g_wf _ _ _ G1)|exact E2].
+Qed.
+
+Lemma cinit_wf tcp o : wf (cinit tcp o).
+Proof. split; cbn; discriminate. Qed.
+
+(* ---- top level ---- *)
+Lemma subs_in_rets t r : In r (subs t) -> In r (rets t).
+Proof.
+  induction t as [|e t IH]; cbn; [auto|]. destruct e; cbn; auto.
+  destruct (c =? 0); cbn; [intros [H|H]; auto|auto].
+Qed.
+
+Lemma subs_nodup t : NoDup (rets t) -> NoDup (subs t).
+Proof.
+  induction t as [|e t IH]; cbn; intros N; [constructor|]. destruct e; cbn in *; auto.
+  inversion N as [|? ? Hn N']; subst. destruct (c =? 0); cbn; [|auto].
+  constructor; [|auto]. intros H. apply Hn, subs_in_rets, H.
+Qed.
+
+Lemma ret0_in_subs t r : In (CRet r 0) t -> In r (subs t).
+Proof.
+  intros H. unfold subs. apply in_flat_map. exists (CRet r 0). split; [exact H|]. cbn. left; reflexivity.
+Qed.
+
+(* every request whose submitting call returned 0 is in exactly one of three
+   states: called back once, still pending, or overwritten (pipes only) *)
+Theorem connect_counting tcp o os beh :
+  let '(x, tr) := crun (cinit tcp o) os beh in
+  wf x /\ Forall status_ok tr /\ (tcp = true -> losts tr = []) /\
+  forall r, In (CRet r 0) tr -> (cnt (cbs tr) r + cnt (losts tr) r + pend (cs x) r = 1)%nat.
+Proof.
+  destruct (crun (cinit tcp o) os beh) as [x tr] eqn:E.
+  pose proof (crun_good _ _ _ _ _ (cinit_wf tcp o) E) as G.
+  split; [apply (g_wf _ _ _ G)|]. split; [apply (g_st _ _ _ G)|]. split; [apply (g_lost _ _ _ G)|].
+  intros r Hr. rewrite (g_cnt _ _ _ G r). unfold pend at 1. cbn. rewrite Nat.add_0_r.
+  apply (proj1 (NoDup_count_occ' Nat.eq_dec (subs tr))).
+  - apply subs_nodup, (g_nodup _ _ _ G).
+  - apply ret0_in_subs, Hr.
+Qed.
+
+Lemma crun_app beh a : forall x b,
+  crun x (a ++ b) beh = let (x1, e1) := crun x a beh in let (x2, e2) := crun x1 b beh in (x2, e1 ++ e2).
+Proof.
+  induction a as [|o a IH]; intros x b; cbn [app crun].
+  - destruct (crun x b beh); reflexivity.
+  - destruct (cstep x o beh) as [x1 e1]. rewrite IH. destruct (crun x1 a beh) as [x2 e2].
+    destruct (crun x2 b beh) as [x3 e3]. rewrite app_assoc. reflexivity.
+Qed.
+
+Lemma destroy_closed x beh : wf x -> c_closed (cs (fst (destroy x beh))) = true.
+Proof.
+  intros W. unfold destroy. destruct (c_req (cs x)).
+  - match goal with |- context [run_cb ?y beh] => destruct (run_cb y beh) as [x2 e2] eqn:Er;
+      assert (Wy : wf y) by (destruct W as (W1 & W2); split; cbn; [discriminate|auto]);
+      pose proof (run_cb_good _ _ _ _ Wy Er) as G end.
+    cbn [fst]. apply (g_closed _ _ _ G). reflexivity.
+  - reflexivity.
+Qed.
+
+Lemma run_iter_closes x beh :
+  wf x -> c_closing (cs x) = true -> c_closed (cs (fst (run_iter x beh))) = true.
+Proof.
+  intros W Hc. unfold run_iter.
+  destruct (next_b (o_ready (co x))) as [rdy rd'].
+  match goal with |- context [run_pending ?y beh] =>
+    assert (G0 : Good x [] y) by (apply Good_same; cbn; auto);
+    destruct (run_pending y beh) as [x1 e1] eqn:E1 end.
+  pose proof (run_pending_good _ _ _ _ (g_wf _ _ _ G0) E1) as G1.
+  match goal with |- context [let (_, _) := ?t in _] => destruct t as [x2 e2] eqn:E2 end.
+  assert (G2 : Good x1 e2 x2).
+  { destruct (c_pollout (cs x1) && rdy && negb (c_closing (cs x1))).
+    - eapply stream_io_good; [apply (g_wf _ _ _ G1)|exact E2].
+    - inversion E2; subst. apply Good_refl, (g_wf _ _ _ G1). }
+  destruct (drain 8 x2 beh) as [x3 e3] eqn:E3.
+  pose proof (drain_good _ _ _ _ _ (g_wf _ _ _ G2) E3) as G3.
+  assert (C3 : c_closing (cs x3) = true).
+  { apply (g_closing _ _ _ G3), (g_closing _ _ _ G2), (g_closing _ _ _ G1), (g_closing _ _ _ G0), Hc. }
+  rewrite C3. cbn [andb]. destruct (c_closed (cs x3)) eqn:D3; cbn [negb].
+  - cbn [fst]. exact D3.
+  - pose proof (destroy_closed x3 beh (g_wf _ _ _ G3)) as D. destruct (destroy x3 beh). exact D.
+Qed.
+
+(* C07_connect_once: after the handle has been closed and the loop has run once more,
+   every request accepted with 0 that was not overwritten got exactly one callback *)
+Theorem connect_once tcp o os beh :
+  let '(x, tr) := crun (cinit tcp o) (os ++ [CClose; CRun]) beh in
+  c_closed (cs x) = true /\ c_req (cs x) = None /\ (tcp = true -> losts tr = []) /\
+  forall r, In (CRet r 0) tr -> ~ In r (losts tr) -> cnt (cbs tr) r = 1%nat.
+Proof.
+  pose proof (connect_counting tcp o (os ++ [CClose; CRun]) beh) as H.
+  rewrite crun_app in *.
+  destruct (crun (cinit tcp o) os beh) as [x1 e1] eqn:E1.
+  pose proof (crun_good _ _ _ _ _ (cinit_wf tcp o) E1) as G1.
+  cbn [crun cstep] in *.
+  destruct (cexec_simple x1 CClose) as [x2 e2] eqn:E2.
+  pose proof (cexec_simple_good _ _ _ _ (g_wf _ _ _ G1) E2) as G2.
+  assert (C2 : c_closing (cs x2) = true).
+  { cbn in E2. unfold cclose in E2. destruct (c_closing (cs x1)) eqn:C; inversion E2; subst; auto. }
+  pose proof (run_iter_closes x2 beh (g_wf _ _ _ G2) C2) as D.
+  destruct (run_iter x2 beh) as [x3 e3]. cbn [fst] in D.
+  destruct H as (W & _ & L & Hc).
+  assert (R : c_req (cs x3) = None) by (destruct W as (_ & W2); apply (W2 D)).
+  split; [exact D|]. split; [exact R|]. split; [exact L|].
+  intros r Hr Hl. specialize (Hc r Hr). unfold pend in Hc. rewrite R in Hc.
+  unfold cnt in *. rewrite (proj1 (count_occ_not_In Nat.eq_dec _ _) Hl) in Hc. lia.
+Qed.
+
+Lemma connect_once_refuted :
+  exists o os beh r,
+    let '(x, tr) := crun (cinit false o) (os ++ [CClose; CRun]) beh in
+    In (CRet r 0) tr /\ c_closed (cs x) = true /\ cnt (cbs tr) r = 0%nat.
+Proof.
+  exists (mkO [] [0; -2] [] []), [CPipe2 0 40 false; CPipe2 0 40 false; CRun], (fun _ => []), 0%nat.
+  vm_compute. repeat split. left; reflexivity.
+Qed.
+
+(* status: a callback with status 0 can only come from an SO_ERROR answer of 0 *)
+Lemma status_zero_from_oracle tcp o os beh r src :
+  In (CCb r 0 src) (snd (crun (cinit tcp o) os beh)) -> src = SrcSo.
+Proof.
+  intros H. pose proof (connect_counting tcp o os beh) as C.
+  destruct (crun (cinit tcp o) os beh) as [x tr]. destruct C as (_ & S & _).
+  rewrite Forall_forall in S. specialize (S _ H). cbn in *.
+  destruct src; [reflexivity|contradiction|]. unfold UV_ECANCELED in S. discriminate.
+Qed.
+
+(* ... and an SO_ERROR answer of 0 (no delayed error) completes the request with 0 *)
+Lemma established_status_zero x beh r rest :
+  c_req (cs x) = Some r -> c_delayed (cs x) = 0 -> o_so (co x) = 0 :: rest ->
+  exists e, snd (stream_connect x beh) = CCb r 0 SrcSo :: e.
+Proof.
+  intros R D O. unfold stream_connect. rewrite R, D, O. cbn.
+  match goal with |- context [run_cb ?y beh] => destruct (run_cb y beh) as [x2 e2] end.
+  cbn. eexists; reflexivity.
+Qed.
+
+(* close before completion: the request is completed with UV_ECANCELED by the
+   next loop iteration *)
+Lemma close_cancels x beh r :
+  wf x -> c_closing (cs x) = false -> c_req (cs x) = Some r ->
+  exists e, snd (crun x [CClose; CRun] beh) = CCb r UV_ECANCELED SrcCancel :: e.
+Proof.
+  intros W Hc R. pose proof (wf_not_closed x W Hc) as Hd.
+  cbn [crun cstep cexec_simple]. unfold cclose. rewrite Hc. cbn [app].
+  unfold run_iter. cbn [co cs upd_s o_ready].
+  destruct (next_b (o_ready (co x))) as [rdy rd'].
+  unfold run_pending. cbn [cs c_fed c_pollout c_closing andb negb].
+  cbn [drain cs c_fed]. cbn [c_closing c_closed]. rewrite Hd. cbn [negb andb].
+  unfold destroy. cbn [cs c_req upd_s]. rewrite R.
+  match goal with |- context [run_cb ?y beh] => destruct (run_cb y beh) as [x2 e2] end.
+  cbn. eexists; reflexivity.
 Qed.
